@@ -258,6 +258,75 @@ def explore(chk, rnd, tier):
                     if canon(row.get("sub")) != canon(want):
                         chk.add_violation("nested-async-value", {"sql": c["sql"], "doc": c["doc"], "impl": o, "expected_sub": want})
                         break
+    # COMPOSED statements: the query holding the qualified call gets its rows through query copies (an array of arrays, a join
+    # side) AND is itself nested (derived table, scalar sub-query), or the statement AROUND the derived table sorts / de-duplicates
+    # the column. Every call is complete at return, and the rows are those of the unqualified statement.
+    if not chk.violations:
+        ccases = []
+        for i in range(100 if tier == "quick" else 1400):
+            nrows = rnd.randint(1, 5)
+            order = list(range(nrows))
+            rnd.shuffle(order)
+            rows = [{"id": r, "b": rnd.choice([1, 2, 2, 3]),
+                     "cells": [[{"x": 100 * r + 10 * j + k} for k in range(rnd.randint(0, 2))] for j in range(rnd.randint(0, 2))]} for r in order]
+            qual = rnd.choice(["ASYNC", "ASYNC", "SPINASYNC"])
+            tag = "m%d" % i
+            shape = rnd.choice(["derived-of-grid", "subq-of-cells", "derived-of-derived-join", "derived-order", "derived-distinct",
+                                "derived-join-order", "cte-order", "derived-of-cte"])
+            if shape in ("derived-order", "derived-distinct", "derived-join-order", "cte-order"):
+                qual = "ASYNC"
+            def mk(q):
+                call = "%sVF_SLOW('%s', %%s)" % (q + "." if q else "", tag)
+                colx = call + (" AS v" if q in ("ASYNC", "") else "")
+                if shape == "derived-of-grid":
+                    return "SELECT * FROM (SELECT x, %s FROM g) d" % (colx % "x"), "grid", False
+                if shape == "subq-of-cells":
+                    return "SELECT id, (SELECT x, %s FROM cells) AS sub FROM t" % (colx % "x"), "grid", True
+                if shape == "derived-of-derived-join":
+                    return "SELECT * FROM (SELECT * FROM (SELECT id, %s FROM t) AS d JOIN t e ON d.id = e.id) z" % (colx % "id"), "ids", False
+                if shape == "derived-order":
+                    return "SELECT d.v AS v, d.id AS id FROM (SELECT id, %s FROM t) AS d ORDER BY v %s" % (colx % "id", "DESC" if i % 2 else "ASC"), "ids", True
+                if shape == "derived-distinct":
+                    return "SELECT DISTINCT d.v AS v FROM (SELECT %s FROM t) AS d" % (colx % "b"), "bs", True
+                if shape == "derived-join-order":
+                    return "SELECT z.v AS v FROM (SELECT d.v AS v FROM (SELECT id, %s FROM t) AS d JOIN t e ON d.id = e.id) z ORDER BY v DESC" % (colx % "id"), "ids", True
+                if shape == "cte-order":
+                    return "WITH c AS (SELECT id, %s FROM t) SELECT v, id FROM c ORDER BY v DESC" % (colx % "id"), "ids", True
+                return "SELECT * FROM (WITH c AS (SELECT id, %s FROM t) SELECT * FROM c) d" % (colx % "id"), "ids", True
+            sql, over, seq = mk(qual)
+            psql = mk("")[0]
+            if over == "grid":
+                expect = sorted(float(c["x"]) for r in rows for inner in r["cells"] for c in inner)
+            elif over == "bs":
+                expect = sorted(float(r["b"]) for r in rows)
+            else:
+                expect = sorted(float(r["id"]) for r in rows)
+            doc = {"t": rows, "g": [inner for r in rows for inner in r["cells"]]}
+            ccases.append({"sql": sql, "plain_sql": psql, "doc": doc, "tag": tag, "expect": expect, "qual": qual, "shape": shape, "seq": seq,
+                           "lat": rnd.choice([[0], [300], [0, 1500], [800, 0, 0], [2000]])})
+        outs = run_go([{"op": "query", "doc": enc_val(c["doc"]), "sql": c["sql"], "latency": c["lat"]} for c in ccases], timeout=900)
+        plains = run_go([{"op": "query", "doc": enc_val(c["doc"]), "sql": c["plain_sql"]} for c in ccases], timeout=900)
+        for c, o, pl in zip(ccases, outs, plains):
+            chk.count("composed:" + c["shape"] + ":" + c["qual"] + ":" + str(o.get("r")))
+            if o.get("r") != "ok" or pl.get("r") != "ok":
+                chk.add_violation("nested-qualified-query-failed", {"sql": c["sql"], "doc": c["doc"], "impl": o, "plain_sql": c["plain_sql"], "plain": pl})
+                break
+            got = sorted(x for t, x in dec_val(o.get("callLog", [])) if t == c["tag"])
+            if got != c["expect"]:
+                chk.add_violation("nested-calls-not-complete-at-return", {
+                    "sql": c["sql"], "doc": c["doc"], "latency_us": c["lat"], "completed_invocations": got, "expected": c["expect"],
+                    "detail": "a qualified call inside a nested query had not run to completion exactly once per row when Exec returned"})
+                break
+            if o.get("nonPlain"):
+                chk.add_violation("nested-async-slot-unresolved", {"sql": c["sql"], "doc": c["doc"], "impl": o})
+                break
+            if c["qual"] == "ASYNC":
+                va, vp = dec_val(o["v"]), dec_val(pl["v"])
+                same = canon(va) == canon(vp) if c["seq"] else sorted(map(canon, va)) == sorted(map(canon, vp))
+                if not same:
+                    chk.add_violation("async-differs-from-unqualified", {"sql": c["sql"], "doc": c["doc"], "latency": c["lat"], "async": o,
+                                                                         "plain_sql": c["plain_sql"], "plain": pl})
+                    break
     # immediate functions reject the goroutine qualifiers
     if not chk.violations:
         reqs, exp = [], []
